@@ -143,7 +143,7 @@ static char const *const cnames[] = {"asinh", "acosh", "atanh", "expm1", "log1p"
 static uint64_t chunks;
 static void vf_init(void)
 {
-    chunks = vf.tier ? (strncmp(vf.config, "all-", 4) == 0 ? 60 : 12) : 8;
+    chunks = vf.tier ? (strncmp(vf.config, "all-", 4) == 0 ? 160 : 32) : 8;
     if (getenv("VF_C11_CHUNKS")) { chunks = strtoull(getenv("VF_C11_CHUNKS"), NULL, 0); }
 }
 static uint64_t vf_ncases(int tier) { (void)tier; return (uint64_t)C_N * chunks; }
@@ -178,6 +178,14 @@ static void unary(vf_rng *r, char const *fn, char const *swname, a_real (*mac)(a
             break;
         }
         x = (a_real)v;
+        if (mode == 7 && dom != 2 && vf_chance(r, 1, 2))
+        {
+            /* the top of the range: REAL_MAX * [1/4, 1] (results such as asinh(MAX) ~ 710 are perfectly representable) */
+            v = (double)RMAX * vf_uniform(r, 0.25, 1.0) * (dom == 0 ? vf_sign(r) : 1);
+            if (!strcmp(fn, "expm1")) { v = vf_uniform(r, LOGMAX - 2, LOGMAX); }
+        }
+        x = (a_real)v;
+        if (!isfinite((double)x)) { x = (a_real)RMAX; }
         if (dom == 1 && !(x >= 1)) { continue; }
         if (dom == 2 && !(x > -1 && x < 1)) { continue; }
         if (dom == 3 && !(x > -1)) { continue; }
@@ -244,6 +252,7 @@ static a_real comp(vf_rng *r, int regime)
     {
     case 1: v = (double)RMAX / 2 * vf_uniform(r, 0.05, 0.7); break;
     case 2: v = (double)RMIN * vf_uniform(r, 1, 64); break;
+    case 4: v = (double)SUBULP * (double)(1 + vf_below(r, 20000)); break; /* deep subnormals: the true norm is still representable */
     default: v = logu(r, -6, 6); break;
     }
     if (vf_chance(r, 1, 8)) { v = 0; }
@@ -255,8 +264,8 @@ static void norm23_case(vf_rng *r)
     char d[128];
     for (int i = 0; i < NPTS; ++i)
     {
-        int regime = (int)vf_below(r, 4);
-        a_real x = comp(r, regime), y = comp(r, vf_chance(r, 3, 4) ? regime : 0), z = comp(r, vf_chance(r, 3, 4) ? regime : 0);
+        int regime = (int)vf_below(r, 5);
+        a_real x = comp(r, regime), y = comp(r, regime == 4 || vf_chance(r, 3, 4) ? regime : 0), z = comp(r, regime == 4 || vf_chance(r, 3, 4) ? regime : 0);
         q_t r2, r3;
         if (regime == 3) { x = (a_real)(vf_sign(r) * logu(r, TINY, HUGE_)); y = (a_real)(vf_sign(r) * logu(r, TINY, HUGE_)); z = (a_real)(vf_sign(r) * logu(r, TINY, HUGE_)); }
         r2 = sqrtq((q_t)x * x + (q_t)y * y);
@@ -267,13 +276,13 @@ static void norm23_case(vf_rng *r)
         if (judge("hypot", sw("HYPOT") ? "macro-libm" : "macro-fallback", r2, 1, a_real_hypot(x, y), d)) { VF_COUNT("judged/hypot"); }
         if (judge("norm3", "value", r3, 1, a_real_norm3(x, y, z), d)) { VF_COUNT("judged/norm3"); cell("norm3", regime, r3); }
         /* representable result => finite and non-zero */
-        if (r2 >= RMIN && r2 <= RMAX)
+        if (r2 >= SUBULP && r2 <= RMAX)
         {
             a_real g = a_real_norm2(x, y);
             VF_COUNT("norm-no-spurious-overflow-underflow");
             if (!isfinite((double)g) || g == 0) { vf_viol("real/norm2/spurious-overflow-or-underflow", "norm2(%s) = %g although the true value %.6Lg is representable", d, (double)g, (long double)r2); }
         }
-        if (r3 >= RMIN && r3 <= RMAX)
+        if (r3 >= SUBULP && r3 <= RMAX)
         {
             a_real g = a_real_norm3(x, y, z);
             if (!isfinite((double)g) || g == 0) { vf_viol("real/norm3/spurious-overflow-or-underflow", "norm3(%s) = %g although the true value %.6Lg is representable", d, (double)g, (long double)r3); }
@@ -287,7 +296,7 @@ static void normn_case(vf_rng *r)
     for (int i = 0; i < NPTS / 4; ++i)
     {
         size_t n = (size_t)vf_below(r, 34), c = 1 + (size_t)vf_below(r, 4);
-        int regime = (int)vf_below(r, 3);
+        int regime = (int)vf_below(r, 4) == 3 ? 4 : (int)vf_below(r, 3);
         a_real *p = (a_real *)malloc((n * c ? n * c : 1) * sizeof(a_real)); /* exact size: a stride error is an ASan report */
         a_real *q = (a_real *)malloc((n ? n : 1) * sizeof(a_real));
         q_t s = 0, ref_r;
@@ -304,7 +313,7 @@ static void normn_case(vf_rng *r)
         if (i < 2) { vf_log("norm %s", d); }
         if (judge("norm", "value", ref_r, 1 + (q_t)n / 4, a_real_norm(n, q), d)) { VF_COUNT("judged/norm"); cell("norm", regime * 40 + (int)n, ref_r); }
         if (judge("norm_", "value", ref_r, 1 + (q_t)n / 4, a_real_norm_(n, p, c), d)) { VF_COUNT("judged/norm_"); }
-        if (ref_r >= RMIN && ref_r <= RMAX)
+        if (ref_r >= SUBULP && ref_r <= RMAX)
         {
             a_real g = a_real_norm(n, q);
             VF_COUNT("norm-no-spurious-overflow-underflow");
